@@ -82,6 +82,12 @@ def run(tier):
             n = 100
             k += 2
             base = {"algo": algo, "kind": kind, "K": Kk, "D": D, "n": n, "T": n, "prm": prm, "pattern": rnd.choice(PC2.SAFE_PATTERNS), "seed": rnd.randrange(1 << 30)}
+            if algo in ("POO", "GPO", "PCT", "VPCT", "StoSOO", "StroquOOL", "SequOOL", "DOO", "SOO") and rep % 2 == 0:
+                # recommendations asked in the middle of the run are part of the comparison (half of them on negative rewards:
+                # a default value such as 0 or the origin must not stand in for "nothing yet")
+                base["queries"] = sorted(rnd.sample(range(n), 8))
+                if rep % 4 == 0:
+                    base["pattern"] = "neg"
             a = dict(base, id=6000000 + k, box=box)
             b = dict(base, id=6000001 + k, box=image(box, scale, shift))
             jobs += [a, b]
